@@ -10,7 +10,12 @@ A *case* is a plain JSON value:
    "ract": recurrent activation string (LSTM / GRU only),
    "in_shape": [batch, ...],
    "w":    {role: flat list of float32 values},    # roles that own a weight
-   "x":    flat list of float32 values}
+   "x":    flat list of float32 values,
+   "mask": [[..]] (kh x kw) optional kernel mask of QConv2D (Q layer only),
+   "qkw":  {...} optional further QKeras-only constructor arguments
+           (kernel_range / bias_range / depthwise_range: deprecated, no effect),
+   "calls": [{"in_shape": [...], "x": [...]}, ...]  optional further inputs of
+           other admissible shapes fed to the SAME layer instance afterwards}
 
 Roles (in the order in which Keras stores the weights; `state` and `average`
 own no weight):
@@ -124,6 +129,10 @@ BIAS_Q = [
     "ternary()",
     "binary(alpha=1)",
     "quantized_tanh(5)",
+    # data-dependent scale / threshold on a rank-1 weight
+    "ternary(alpha='auto')",
+    "binary(alpha='auto')",
+    "quantized_bits(5,1,1,alpha='auto_po2')",
 ]
 ACT_Q = [
     None,
@@ -279,6 +288,9 @@ def build_qlayer(case):
   kw["activation"] = case.get("act")
   if case["layer"] in ("QLSTM", "QGRU"):
     kw["recurrent_activation"] = case.get("ract", "hard_sigmoid")
+  if case.get("mask") is not None:
+    kw["mask"] = np.asarray(case["mask"], dtype=F32)
+  kw.update(case.get("qkw") or {})
   return cls(**kw)
 
 
@@ -317,10 +329,14 @@ def build_stock_rnn(case, act, ract, cell):
     ckw["reset_after"] = kw.get("reset_after", False)
   if lay == "QLSTM" and "unit_forget_bias" in kw:
     ckw["unit_forget_bias"] = kw["unit_forget_bias"]
+  for k in ("dropout", "recurrent_dropout"):
+    if k in kw:
+      ckw[k] = kw[k]
   if cell:
     return getattr(tf.keras.layers, STOCK_CELL[lay])(**ckw)
   ckw["return_sequences"] = kw.get("return_sequences", False)
   ckw["go_backwards"] = kw.get("go_backwards", False)
+  ckw["unroll"] = kw.get("unroll", False)
   return getattr(tf.keras.layers, STOCK[lay])(**ckw)
 
 
@@ -395,6 +411,25 @@ def labels(case):
   for r, v in case["q"].items():
     if v is not None:
       labs.append("q:" + r)
+  if case.get("mask") is not None:
+    flat = [v for row in case["mask"] for v in row]
+    labs.append("mask")
+    if any(v == 0 for v in flat):
+      labs.append("mask:has_zero")
+    if any(v not in (0, 1) for v in flat):
+      labs.append("mask:non_binary")
+  if case.get("qkw"):
+    labs.append("deprecated_range_args")
+  if kw.get("dropout") or kw.get("recurrent_dropout"):
+    labs.append("dropout_inference")
+  if kw.get("unroll"):
+    labs.append("unroll")
+  if str(kw.get("padding", "")).isupper():
+    labs.append("pad_uppercase")
+  if case.get("calls"):
+    labs.append("multi_call")
+    if any(c["in_shape"][1:] != case["in_shape"][1:] for c in case["calls"]):
+      labs.append("multi_call:shape_changed")
   # classes that were broken before the fixes for C11-KF1..KF5
   if lay == "QSeparableConv1D" and pad == "causal":
     labs.append("sep1d_causal")
@@ -525,6 +560,18 @@ def desc_strategy(tier="quick", layers=None):
           kw["filters"] = draw(st.integers(1, fmax))
       kw.update(kernel_size=ks, strides=ss, padding=pad, dilation_rate=dl,
                 use_bias=draw(st.booleans()))
+      if lay == "QDepthwiseConv2D" and draw(st.integers(0, 3)) == 3:
+        kw["padding"] = pad.upper()   # the layer's own default is "VALID"
+      if lay == "QConv2D" and draw(st.integers(0, 2)) == 2:
+        # optional kernel mask (kh x kw): 0/1 with at least one zero when the
+        # kernel has more than one tap; sometimes other dyadic factors (the
+        # docstring only says "mask for kernel weights")
+        n = ks[0] * ks[1]
+        vals = [0.0, 1.0] if draw(st.integers(0, 3)) else [0.0, 1.0, 0.5, 2.0]
+        m = draw(st.lists(st.sampled_from(vals), min_size=n, max_size=n))
+        if n > 1 and 0.0 not in m:
+          m[draw(st.integers(0, n - 1))] = 0.0
+        case["mask"] = [m[i * ks[1]:(i + 1) * ks[1]] for i in range(ks[0])]
       if cf:
         kw["data_format"] = "channels_first"
         case["in_shape"] = [b, cin] + hw
@@ -540,6 +587,10 @@ def desc_strategy(tier="quick", layers=None):
         kw["implementation"] = draw(st.sampled_from([1, 2]))
       if lay == "QGRU":
         kw["reset_after"] = draw(st.booleans())
+      if draw(st.integers(0, 5)) == 5:
+        # dropout must be the identity at inference
+        kw["dropout"] = 0.25
+        kw["recurrent_dropout"] = draw(st.sampled_from([0.0, 0.5]))
       if lay == "QLSTM":
         # only changes the bias initializer; weights are set explicitly, so
         # this checks that the option is accepted and does not alter the maths
@@ -592,9 +643,71 @@ def desc_strategy(tier="quick", layers=None):
     else:
       case["act"] = None if (noquant or draw(st.integers(0, 2)) == 0) else draw(
           st.sampled_from(ACT_Q[1:]))
+
+    # deprecated QKeras-only arguments (documented to have no effect)
+    if lay in RANGE_ARGS and draw(st.integers(0, 7)) == 7:
+      case["qkw"] = {k: draw(st.sampled_from([1.0, 4.0])) for k in RANGE_ARGS[lay]}
+
+    # further calls of the same layer instance on other admissible shapes
+    ncalls = draw(st.sampled_from([0, 0, 0, 1, 2]))
+    if ncalls:
+      case["calls"] = [{"in_shape": vary_shape(draw, st, case)}
+                       for _ in range(ncalls)]
+    elif fam == "rnn" and draw(st.integers(0, 5)) == 5:
+      kw["unroll"] = True          # needs a static number of time steps
     return case
 
   return d()
+
+
+RANGE_ARGS = {
+    "QDense": ["kernel_range", "bias_range"],
+    "QConv1D": ["kernel_range", "bias_range"],
+    "QConv2D": ["kernel_range", "bias_range"],
+    "QDepthwiseConv2D": ["depthwise_range", "bias_range"],
+}
+
+
+def min_spatial(case):
+  """Smallest admissible size per spatial axis for this layer configuration."""
+  kw, lay = case["kw"], case["layer"]
+  pad = str(kw.get("padding", "valid")).lower()
+  if lay in ("QConv1D", "QSeparableConv1D"):
+    ext = (kw["kernel_size"] - 1) * kw["dilation_rate"] + 1
+    return [ext if pad == "valid" else 1]
+  if lay in ("QConv2D", "QDepthwiseConv2D", "QSeparableConv2D"):
+    return [((kw["kernel_size"][i] - 1) * kw["dilation_rate"][i] + 1)
+            if pad == "valid" else 1 for i in range(2)]
+  if lay == "QAveragePooling2D":
+    return [kw["pool_size"][i] if pad == "valid" else 1 for i in range(2)]
+  if lay == "QGlobalAveragePooling2D":
+    return [1, 1]
+  return []
+
+
+def vary_shape(draw, st, case):
+  """Another admissible input shape for the same built layer: batch, spatial
+  sizes, sequence length and (dense / scale-shift) the free middle axes may
+  change; the channel axis and the rank may not."""
+  s = list(case["in_shape"])
+  lay = case["layer"]
+  out = list(s)
+  out[0] = draw(st.integers(1, 3))
+  ms = min_spatial(case)
+  if ms:
+    cf = case["kw"].get("data_format") == "channels_first"
+    first = 2 if cf else 1
+    for i, m in enumerate(ms):
+      out[first + i] = m + draw(st.integers(0, 4))
+  elif FAMILY[lay] == "rnn":
+    out[1] = draw(st.integers(1, 5))
+  elif lay == "QDense":
+    for i in range(1, len(s) - 1):
+      out[i] = draw(st.integers(1, 3))
+  elif lay == "QScaleShift":
+    for i in range(1, len(s)):
+      out[i] = draw(st.integers(1, 4))
+  return out
 
 
 def case_strategy(tier="quick", layers=None):
@@ -610,6 +723,9 @@ def case_strategy(tier="quick", layers=None):
       case["w"][role] = draw(_values(st, n, 2.5, 128.0))
     n = int(np.prod(case["in_shape"]))
     case["x"] = draw(_values(st, n, 4.0, 32.0))
+    for call in case.get("calls", []):
+      n = int(np.prod(call["in_shape"]))
+      call["x"] = draw(_values(st, n, 4.0, 32.0))
     return case
 
   return c()
@@ -626,4 +742,11 @@ def fill_values(case, seed):
     case["w"][role] = [float(F32(v) / 128.0) for v in rs.randint(-320, 321, n)]
   n = int(np.prod(case["in_shape"]))
   case["x"] = [float(F32(v) / 32.0) for v in rs.randint(-128, 129, n)]
+  if case.get("calls"):
+    calls = []
+    for call in case["calls"]:
+      n = int(np.prod(call["in_shape"]))
+      calls.append({"in_shape": list(call["in_shape"]),
+                    "x": [float(F32(v) / 32.0) for v in rs.randint(-128, 129, n)]})
+    case["calls"] = calls
   return case
